@@ -13,7 +13,7 @@ From Coq Require Import ZArith List Bool Permutation.
 From GV Require Import Base.CSem Base.F32 Gen.MetricPyx Spec.Jaccard Spec.JaccardF Spec.C05
   Model.MetricPy Model.C05 Proofs.C05Sched Proofs.C05Array Proofs.C05Chunks Proofs.C05Matrix
   Proofs.C05Pairwise Proofs.C05Square.
-From GV Require Import Gen.PyFuncs Proofs.PyTie.
+From GV Require Import Gen.PyC05 Proofs.PyTieC05.
 Import ListNotations.
 Open Scope Z_scope.
 
